@@ -682,7 +682,21 @@ func genCoreCase(rng *Rng, maxOps int, variant string) (*CoreCase, error) {
 		case x < th[2]:
 			emit(g.opAsk())
 		case x < th[3]:
-			emit(g.opRelease(&pending))
+			rel := g.opRelease(&pending)
+			emit(rel)
+			if rel.Key != "" && rel.App != "" && rel.TType != 4 && rng.Chance(15) {
+				// the shim reuses the key: the same key is submitted again as a new ask, and (half of the time) cancelled
+				// while it is still pending; other asks keep the application visited by the scheduler
+				emit(CoreOp{Kind: "alloc", App: rel.App, Key: rel.Key, Res: g.r.res(g.ntypes, 1, 5, true), AgeSec: 3600})
+				if rng.Chance(50) {
+					if rng.Chance(50) {
+						emit(CoreOp{Kind: "alloc", App: rel.App, Key: g.newKey(rel.App), Res: g.r.res(g.ntypes, 1, 4, true), AgeSec: 3600})
+					}
+					emit(CoreOp{Kind: "release", App: rel.App, Key: rel.Key, TType: 1})
+					emit(CoreOp{Kind: "sched"})
+					emit(CoreOp{Kind: "sched"})
+				}
+			}
 		case x < th[4]:
 			emit(g.opBound())
 		case x < th[5]:
@@ -1001,6 +1015,9 @@ func genPreemptDeep(rng *Rng, maxOps int) (*CoreCase, error) {
 		root.children = []*genQueue{qa, qb}
 	}
 	w := CoreWorld{Configs: []string{coreConfigYAML(root, true, []string{"fair", "binpacking"}[rng.Intn(2)])}, ResDelayOn: rng.Chance(70), Seed: rng.Next()}
+	// aged reservations: the wait timeout is crossed at once, so that the preemptor (initWorkingState) and
+	// tryReservedAllocate meet reservations they may cancel
+	w.ResWaitOn = w.ResDelayOn && rng.Chance(45)
 	c := &CoreCase{World: w}
 	d, err := newCoreDriver(&c.World)
 	if err != nil {
